@@ -196,7 +196,11 @@ def BodySites(body, path):
       if any(ir.IsPositional(a['f']) for a in c['args']):
         out.append(('atom_positional_as_named', here))
     elif k == 'unify':
-      out.append(('eq_single', here))
+      # `e1 = e2` with an infix expression on the left collides with the
+      # `x Op= (...)` syntax (known finding F-C11-eq-infix-lhs): own kind
+      infix = c['l'].get('k') in ('op', 'if') and not (
+          c['l'].get('op') in ('Size', 'Element', 'Sort', 'Range'))
+      out.append(('eq_single_infix_lhs' if infix else 'eq_single', here))
       if c['r'].get('k') == 'agg' and c['l'].get('k') == 'var':
         out.append(('combine_syntax', here))
         out += BodySites(c['r']['body'], here + ('aggbody',))
@@ -256,7 +260,7 @@ def ApplyForm(prog, kind, site, rng):
     # aggregated value needs an explicit `distinct`, which RenderHead adds.
   elif kind == 'atom_positional_as_named':
     parent[idx]['form'] = 'long'
-  elif kind == 'eq_single':
+  elif kind in ('eq_single', 'eq_single_infix_lhs'):
     parent[idx]['form'] = 'single_eq'
   elif kind == 'combine_syntax':
     c = parent[idx]
